@@ -13,6 +13,12 @@ Definition wrap_dim (n : nat) (d : Z) : option nat :=
   let m := Z.max (Z.of_nat n) 1 in
   if ((- m <=? d) && (d <? m))%Z then Some (Z.to_nat (d mod m)) else None.
 
+(* NumPy's axis rule, which movedim / transpose / unfold mirror: an axis a of an n-d array is legal iff -n <= a < n
+   and denotes axis a mod n; a 0-d array has no axis (PyTorch would accept dims 0/-1 there: the library's documentation
+   promises nothing for 0-d operands of these ops, and rejecting by exception is what np.moveaxis / np.swapaxes do). *)
+Definition axis_dim (n : nat) (a : Z) : option nat :=
+  if ((- Z.of_nat n <=? a) && (a <? Z.of_nat n))%Z then Some (Z.to_nat (a mod Z.of_nat n)) else None.
+
 (* "the elements keep their (row-major) order": reading the result in order reads the operand in order *)
 Definition order_preserving (op : gather_op) : Prop :=
   forall j, In j (idxs (g_out op)) ->
@@ -22,12 +28,14 @@ Definition order_preserving (op : gather_op) : Prop :=
 Definition select_positions {X} (keep : nat -> bool) (l : list X) : list X :=
   map snd (filter (fun p => keep (fst p)) (combine (seq 0 (length l)) l)).
 
-(* ------------------------------------------------------------------ reshape (torch.reshape / Tensor.view) *)
-Definition known_prod (t : list Z) : Z := fold_right Z.mul 1%Z (filter (fun z => negb (z =? -1)%Z) t).
+(* ------------------------------------------------------------------ reshape (mirrors ndarray.reshape: at most one
+   negative entry, which stands for the unknown dimension; torch.reshape is the same with -1 the only negative
+   value it allows - the library hands the target to ndarray.reshape and follows NumPy here) *)
+Definition known_prod (t : list Z) : Z := fold_right Z.mul 1%Z (filter (fun z => (0 <=? z)%Z) t).
+Definition unknowns (t : list Z) : nat := length (filter (fun z => (z <? 0)%Z) t).
 
 Definition legal_reshape (sh : shape) (t : list Z) : Prop :=
-  Forall (fun z => (-1 <= z)%Z) t /\
-  match count_occ Z.eq_dec t (-1)%Z with
+  match unknowns t with
   | 0 => known_prod t = Z.of_nat (size sh)
   | 1 => (0 < known_prod t)%Z /\ (Z.of_nat (size sh) mod known_prod t = 0)%Z
   | _ => False
@@ -36,7 +44,7 @@ Definition legal_reshape (sh : shape) (t : list Z) : Prop :=
 Definition spec_reshape (sh : shape) (t : list Z) (op : gather_op) : Prop :=
   g_in op = sh /\
   length (g_out op) = length t /\
-  (forall k, k < length t -> nth k t 0%Z <> (-1)%Z -> Z.of_nat (nth k (g_out op) 0) = nth k t 0%Z) /\
+  (forall k, k < length t -> (0 <= nth k t 0)%Z -> Z.of_nat (nth k (g_out op) 0) = nth k t 0%Z) /\
   size (g_out op) = size sh /\
   order_preserving op.
 
@@ -109,11 +117,11 @@ Definition sw (a b k : nat) : nat := if k =? b then a else if k =? a then b else
 (* torch.movedim(x, source, destination): output axis `destination` is input axis `source`,
    the other axes keep their relative order *)
 Definition legal_movedim (sh : shape) (s d : Z) : Prop :=
-  wrap_dim (length sh) s <> None /\ wrap_dim (length sh) d <> None.
+  axis_dim (length sh) s <> None /\ axis_dim (length sh) d <> None.
 
 Definition spec_movedim (sh : shape) (s d : Z) (op : gather_op) : Prop :=
   exists s' d' sigma,
-    wrap_dim (length sh) s = Some s' /\ wrap_dim (length sh) d = Some d' /\
+    axis_dim (length sh) s = Some s' /\ axis_dim (length sh) d = Some d' /\
     g_in op = sh /\ permutes op sigma /\
     sigma d' = s' /\
     (forall k, k < length sh -> k <> d' -> sigma k <> s') /\
@@ -121,23 +129,23 @@ Definition spec_movedim (sh : shape) (s d : Z) (op : gather_op) : Prop :=
 
 (* torch.transpose(x, dim0, dim1): the two axes are swapped, the others stay *)
 Definition legal_transpose (sh : shape) (a b : Z) : Prop :=
-  wrap_dim (length sh) a <> None /\ wrap_dim (length sh) b <> None.
+  axis_dim (length sh) a <> None /\ axis_dim (length sh) b <> None.
 
 Definition spec_transpose (sh : shape) (a b : Z) (op : gather_op) : Prop :=
   exists a' b',
-    wrap_dim (length sh) a = Some a' /\ wrap_dim (length sh) b = Some b' /\
+    axis_dim (length sh) a = Some a' /\ axis_dim (length sh) b = Some b' /\
     g_in op = sh /\ permutes op (fun k => if k =? a' then b' else if k =? b' then a' else k).
 
 (* ------------------------------------------------------------------ unfold (Tensor.unfold(dimension, size, step)):
    (L - size)/step + 1 windows along `dimension`, the window axis appended last,
    out[..., w, ..., k] = in[..., w*step + k, ...]; size and step positive (the op's own documentation) *)
 Definition legal_unfold (sh : shape) (dimension size step : Z) : Prop :=
-  exists d, wrap_dim (length sh) dimension = Some d /\
-    (0 < size)%Z /\ (0 < step)%Z /\ (size <= Z.of_nat (nth d sh 1%nat))%Z.   (* a 0-d tensor counts as one axis of size 1 *)
+  exists d, axis_dim (length sh) dimension = Some d /\
+    (0 < size)%Z /\ (0 < step)%Z /\ (size <= Z.of_nat (nth d sh 0%nat))%Z.
 
 Definition spec_unfold (sh : shape) (dimension size step : Z) (op : gather_op) : Prop :=
   exists d pre L post,
-    wrap_dim (length sh) dimension = Some d /\ sh = pre ++ L :: post /\ length pre = d /\
+    axis_dim (length sh) dimension = Some d /\ sh = pre ++ L :: post /\ length pre = d /\
     g_in op = sh /\
     g_out op = pre ++ ((L - Z.to_nat size) / Z.to_nat step + 1) :: post ++ [Z.to_nat size] /\
     forall p w q k, length p = d -> length q = length post ->
